@@ -113,7 +113,7 @@ def kani_cmd(plan, wdir, extra):
     return cmd
 
 
-MEM_KB = int(os.environ.get("VERIF_MEM_GB", "12")) * 1024 * 1024
+MEM_GB_DEFAULT = {"quick": 12, "thorough": 32}   # thorough: kani-driver itself holds every check of thousands of harnesses for the JSON export
 
 
 def run_kani(plan, wdir, crate, tier):
@@ -124,7 +124,8 @@ def run_kani(plan, wdir, crate, tier):
     cmd = kani_cmd(plan, wdir, ["-j", str(JOBS), "--export-json", out_json, "--harness-timeout", str(tmo)])
     log = os.path.join(wdir, "kani.log")
     # ulimit on address space so a blown-up CBMC instance dies instead of taking the machine down
-    shcmd = "ulimit -v %d; exec %s" % (MEM_KB, " ".join("'%s'" % c for c in cmd))
+    mem_kb = int(os.environ.get("VERIF_MEM_GB", MEM_GB_DEFAULT.get(tier, 12))) * 1024 * 1024
+    shcmd = "ulimit -v %d; exec %s" % (mem_kb, " ".join("'%s'" % c for c in cmd))
     rc, out = sh(shcmd, cwd=crate, log=log, timeout=tmo * 40 + 3600)
     res = None
     if os.path.exists(out_json):
